@@ -14,7 +14,7 @@ META = {
                   "runs at most once, a side that reports closed has run it exactly once and released everything, a side that closes / is told to close / meets the failure while "
                   "serving is closed and clean when control returns, close is idempotent - all of it also when the service's disconnect hook raises (the hook outcome is a parameter "
                   "of every theorem; c11_raising_hook_refuted is the counterpart for a tree whose _cleanup does not clear in a finally, F25); the refutation for a tree whose "
-                  "serve() does not close when EOFError escapes _dispatch (F6). "Reports closed" is read at the moments control is back with the caller (entry points return): WHILE close() runs - inside the before_closed hook or a blocking "
+                  "serve() does not close when EOFError escapes _dispatch (F6). 'Reports closed' is read at the moments control is back with the caller (entry points return): WHILE close() runs - inside the before_closed hook or a blocking "
                   "close request - `closed` is already True with the disconnect hook not yet run (protocol.py sets the flag first); another thread can observe that. "
                   "The second sentence over the requests of a side (c11_ended_nobody_waits, c11_no_phantom_value, c11_issue_after_end): once a side has ended every request "
                   "has its value exactly if the peer's reply was dispatched, else EOFError; threads BLOCKED in poll/wait at that moment are outside the model and are the "
